@@ -327,6 +327,35 @@ def build_input(op, pool):
         import copy
 
         return MazeDataset.load(copy.deepcopy(src)._serialize_minimal())
+    if op[0] == "ring":
+        # hand-built mazes whose connections form the perimeter ring of a g x g grid: between two cells of the ring there are
+        # two routes, so several mazes can share connection structure, start and end and still differ in their solutions
+        # (neither exact duplicates nor, with thresholds 0, near duplicates); equal-length routes exist between opposite corners
+        import numpy as np
+        from maze_dataset import MazeDatasetConfig, SolvedMaze
+
+        g, picks = op[1], op[2]
+        conn = np.zeros((2, g, g), dtype=np.bool_)
+        conn[1, 0, : g - 1] = True
+        conn[1, g - 1, : g - 1] = True
+        conn[0, : g - 1, 0] = True
+        conn[0, : g - 1, g - 1] = True
+        ring = [[0, c] for c in range(g)] + [[r, g - 1] for r in range(1, g)] + [[g - 1, c] for c in range(g - 2, -1, -1)] + [[r, 0] for r in range(g - 2, 0, -1)]
+        n = len(ring)
+        mazes = []
+        for a, b, clockwise in picks:
+            a, b = a % n, b % n
+            if a == b:
+                b = (a + n // 2) % n
+            path = []
+            i = a
+            while True:
+                path.append(ring[i])
+                if i == b:
+                    break
+                i = (i + (1 if clockwise else -1)) % n
+            mazes.append(SolvedMaze(connection_list=conn.copy(), solution=np.array(path, dtype=np.int64)))
+        return MazeDataset(cfg=MazeDatasetConfig(name="line", grid_n=g, n_mazes=len(mazes)), mazes=mazes)
     if op[0] == "line":
         # hand-built mazes on a large grid (no generator, no solver): an L-shaped corridor from (r0, c0) right `a` cells and
         # down `b` cells, which is its own shortest solution; start-end distances reach and exceed 127; solution arrays in
@@ -390,7 +419,7 @@ def st_history(spec, log, stats):
     name_seq = []
     for op in spec["ops"]:
         kind = op[0]
-        if kind in ("make", "dup", "chain", "narrow", "line"):
+        if kind in ("make", "dup", "chain", "narrow", "line", "ring"):
             try:
                 d = build_input(op, pool)
             except Exception as e:  # noqa: BLE001 - generation errors are not C08's business
@@ -656,6 +685,20 @@ def gen_specs(rng: random.Random, tier: str, n: int) -> list[dict]:
                 else:
                     segs.append([rng.randrange(g), rng.randrange(g), rng.randint(0, g - 1), rng.randint(0, g - 1)])
             ops.append(["line", g, segs, dt])
+        if rng.random() < 0.10:
+            g = rng.choice([2, 2, 3, 4])
+            n_ring = 4 * (g - 1)
+            picks = []
+            for _ in range(rng.randint(3, 8)):
+                a = rng.randrange(n_ring)
+                b = (a + n_ring // 2) % n_ring if rng.random() < 0.6 else rng.randrange(n_ring)
+                picks.append([a, b, rng.random() < 0.5])
+                if rng.random() < 0.5:
+                    picks.append([a, b, not picks[-1][2]])  # same endpoints, the other way round the ring
+                if rng.random() < 0.3:
+                    picks.append(list(picks[-1]))  # and an exact duplicate
+            ops.append(["ring", g, picks])
+            ops.append(["filter", -1, rng.choice([{"name": "remove_duplicates_fast", "args": [], "kwargs": {}}, {"name": "remove_duplicates", "args": [0, 0], "kwargs": {}}, {"name": "remove_duplicates", "args": [], "kwargs": {}}])])
         for _ in range(rng.randint(3, 9)):
             r = rng.random()
             if r < 0.12 and ops[-1][0] == "filter" and ops[-1][2]["name"] != "collect_generation_meta":
